@@ -95,10 +95,12 @@ class Metadata:
         elif package.python_versions != "*":
             meta.requires_python = format_python_constraint(package.python_constraint)
 
+        # a dependency whose marker is empty can never be selected: to_pep_508()
+        # would print it without any marker, i.e. as an unconditional requirement
         meta.requires_dist = [
             d.to_pep_508()
             for d in package.requires
-            if not d.is_optional() or d.in_extras
+            if (not d.is_optional() or d.in_extras) and not d.marker.is_empty()
         ]
 
         # Version 2.1
